@@ -219,8 +219,17 @@ Proof.
   destruct (micro_basic _ _ _ _ _ _ HM) as [_ [E _]]. exact E.
 Qed.
 
+Lemma guard_within_S n s q :
+  guard_within (S n) s q = p_guard q || (let '(s', q') := micro true s 2 q in guard_within n s' q').
+Proof. reflexivity. Qed.
+Lemma guard_within_true n s q : p_guard q = true -> guard_within n s q = true.
+Proof. intros H. destruct n; cbn [guard_within]; rewrite H; reflexivity. Qed.
+
+(* one symbolic step; guard_within itself is never unfolded by cbn (its fuel is a numeral: it would unfold under the
+   binders of a blocked step, 26 cases deep) *)
 Ltac sym1 :=
-  cbn [guard_within micro ret server_next goto set_files p_pc p_pid p_guard p_drv p_alive s_lock s_meta s_tmp s_procs
+  try rewrite guard_within_S;
+  cbn [micro ret server_next goto set_files p_pc p_pid p_guard p_drv p_alive s_lock s_meta s_tmp s_procs
        s_took_lock s_took_meta lock_pid meta_pid orb andb negb];
   unfold grace_fires;
   change (o_deadline 2) with false; change (o_grace 2) with true; change (o_reach 2) with false;
@@ -254,7 +263,7 @@ Proof.
       (destruct m as [|mp]; [|pose proof (Hm mp eq_refl) as Hmp; cbn [meta_pid] in Hmp]);
       destruct k; cbn [pre_pc is_done larg] in *; try discriminate;
       try (pose proof (Harg _ eq_refl) as X; try discriminate X; inversion X; subst; clear X);
-      do 21 sym1; reflexivity.
+      do 21 sym1; first [reflexivity | apply guard_within_true; reflexivity].
   - (* no lock at the path *)
     destruct (In_nth_error _ _ Hw) as [i Hi]. exists i, w. split; [exact Hi|].
     destruct (Hps w Hw) as [Ha Hgd Hd Hp]. split; [exact Ha|].
@@ -263,7 +272,7 @@ Proof.
     unfold meta_free in *.
     (destruct m as [|mp]; [|pose proof (Hm mp eq_refl) as Hmp; cbn [meta_pid] in Hmp]);
       destruct k; cbn [good_absent] in Hwg; try discriminate;
-      do 21 sym1; reflexivity.
+      do 21 sym1; first [reflexivity | apply guard_within_true; reflexivity].
 Qed.
 
 Lemma run_app ag s es1 es2 : run ag s (es1 ++ es2) = run ag (run ag s es1) es2.
@@ -288,4 +297,19 @@ Proof.
   - rewrite Hps. eapply in_upd_self. exact Hq.
   - rewrite solo_alive. exact Ha.
   - exact Hg.
+Qed.
+
+(* non-vacuity: two server loops that have BOTH passed the re-read of the stale cleanup (the prefix of the S13 race): no
+   authority yet; contender 0, left alone for 4 steps (rename, read meta, create, write), is the authority *)
+Definition fair_two : list proc := [fresh 1 DServer; fresh 2 DServer].
+Definition mid_race : list event := repeat (Step 0%nat 0) 6 ++ repeat (Step 1%nat 0) 6.
+Lemma fair_example :
+  servers fair_two /\ dead_leftover fair_two (LRec 900) MAbsent /\ calm mid_race = true
+  /\ holders (run true (init (LRec 900) MAbsent fair_two) mid_race) = []
+  /\ holders (run true (init (LRec 900) MAbsent fair_two) (mid_race ++ repeat (Step 0%nat 2) 4)) = [1].
+Proof.
+  split; [split; [discriminate|]|].
+  - intros q [<-|[<-|[]]]; reflexivity.
+  - split; [split; intros p Hp; inversion Hp; subst; vm_compute; reflexivity|].
+    split; [vm_compute; reflexivity|]. split; vm_compute; reflexivity.
 Qed.
